@@ -3246,6 +3246,12 @@ class Choice(Set):
         self
         """
         oldIdx = self._currentIdx
+        if idx < 0:
+            # the slots take python list indices: remember the
+            # selection in its non-negative form
+            idx += self._componentTypeLen
+            if idx < 0:
+                raise error.PyAsn1Error('component index out of range')
         Set.setComponentByPosition(self, idx, value, verifyConstraints, matchTags, matchConstraints)
         self._currentIdx = idx
         if oldIdx is not None and oldIdx != idx:
